@@ -160,6 +160,7 @@ def strat(tier):
             st.tuples(st.just('clear'), u),
             st.tuples(st.just('copy'), u),
             st.tuples(st.just('contains'), u, ki),
+            st.tuples(st.just('eq_live'), u, u), st.tuples(st.just('eq_live'), u, u),
             st.tuples(st.just('iterate'), u),
             st.tuples(st.just('fill'), u, ki),
         ).map(list)
@@ -438,6 +439,13 @@ def run(case):
                 if r1 != ('ok', None):
                     got = r1
                     break
+        elif name == 'eq_live':
+            # two LIVE caches compared with each other: the answer is about contents only, and neither operand may change
+            # (contents, counters, on_miss calls are checked for every live cache after the step, recency at the end)
+            c2, ref2, _calls2 = univ[op[2] % len(univ)]
+            same = dict(ref.od) == dict(ref2.od)
+            got = _call(lambda: (c == c2, c != c2, c2 == c))
+            exp = ('ok', (same, not same, same))
         elif name == 'contains':
             k = K(op[2] % nkeys)
             got = _call(lambda: k in c)
